@@ -243,6 +243,40 @@ def shard_merge_streams(st, wd):
                                     res.out[:300]))
 
 
+def shard_merge_single(st, wd):
+    """yaml-merge of ONE document - normalisation, or a change of format -
+    gives the same outcome whether the document is a file, is '-', or simply
+    waits on standard input."""
+    for text in ("a: 1\nl: [1, 2]\n", '{"b": 2, "c": [1]}\n', "- 1\n- x\n",
+                 "---\na: 1\n---\nb: 2\n"):
+        fname = os.path.join(wd, "single.yaml")
+        cli.write(fname, text)
+        for extra in ([], ["--document-format=json"]):
+            results = {}
+            for delivery in ("file", "dash", "implied"):
+                if delivery == "file":
+                    res = cli.run("yaml-merge", extra + ["--nostdin", fname])
+                elif delivery == "dash":
+                    res = cli.run("yaml-merge", extra + ["-"], stdin=text)
+                else:
+                    res = cli.run("yaml-merge", extra, stdin=text)
+                case = {"tool": "yaml-merge", "lhs": text, "argv": extra,
+                        "delivery": delivery, "single": True}
+                note(st, "yaml-merge", res, ("single", tuple(extra),
+                                             delivery), "single")
+                if crashed(st, "yaml-merge", res, case):
+                    results[delivery] = "traceback"
+                    continue
+                results[delivery] = (res.code, res.out)
+            if len(set(map(repr, results.values()))) != 1 or \
+                    results["file"] == "traceback" or \
+                    results["file"][0] != 0:
+                st.fail("yaml-merge|single-document|delivery", {
+                    "tool": "yaml-merge", "lhs": text, "argv": extra,
+                    "single": True}, "one outcome, exit 0",
+                    repr(results)[:300])
+
+
 def shard_get_empty(st, wd):
     """A document without any node: nothing can match, so every query ends
     with a non-zero status and prints nothing - from a file and from standard
@@ -273,6 +307,7 @@ def shard_get_empty(st, wd):
 def shard_get_raw(st, wd):
     shard_get_empty(st, wd)
     shard_merge_streams(st, wd)
+    shard_merge_single(st, wd)
     for text, queries in GET_RAW:
         fname = os.path.join(wd, "raw.yaml")
         cli.write(fname, text)
